@@ -26,36 +26,58 @@ LEVEL_TEXT = ("Lean theorems (Props/C05.lean), for EVERY library / text, EVERY B
               "write_content_only; (4) parsed_writable: EVERY library parse_string returns has stripped keys, pairwise distinct "
               "live keys and field keys, string values and no two adjacent free-text comments (splitter + pipeline invariants), so "
               "if its blocks pass the content side conditions SideOK it is writable; (5) content_preserved: for such a document the "
-              "whole parse->write->parse->write round trip succeeds with equal contents and equal texts. Proof: the written text is "
+              "whole parse->write->parse->write round trip succeeds with equal contents and equal texts; (6) "
+              "content_preserved_grammar (= content_preserved_grammar_full, the property at the level of the dialect grammar): the same "
+              "conclusion from the SOURCE document alone - for every derivation d of the dialect grammar (DESIGN section 5) with the "
+              "side conditions Doc.WF5, whose tokens are canonical (= what the lexer produces) and spell the text s: parse_string(s) "
+              "passes SideOK (parsed_grammar_sideOK), so the round trip of s succeeds with equal contents and equal texts; @string "
+              "references are resolved on the way (the referenced value is a Value again); keys may contain escaped delimiters, "
+              "backslashes, non-block-start '@' and newlines. "
+              "Proof of (1)-(5): the written text is "
               "lexed block by block into a derivation of the dialect grammar (a field value {v} is a Value, an @string value {v} a "
               "Bal), C02's split_correct gives the blocks, Library.add is the identity on distinct keys, string resolution skips "
-              "brace-enclosed values, RemoveEnclosing strips exactly the added pair. The models of the six modules are tied to "
+              "brace-enclosed values, RemoveEnclosing strips exactly the added pair. Proof of (6): C02's split_correct gives the blocks of s as stripped "
+              "sub-texts of the token list; stripping white space off a canonical token sequence leaves a token sequence of the same "
+              "grammar class (trim_lex); the three shapes of a stripped Value ({w}, \"w\", bare or concatenated) each yield a "
+              "ValueOK content; the resolved value of a reference is the (Value) source of the @string. The models of the six modules are tied to "
               "/repo by differential execution of the full round trip on every run.")
 LEVEL_NOTE = ("Trusted: Lean kernel + 3 standard axioms; the hand-written models (Lex, Split, Interpolate incl. its Library.add fold, "
               "Enclosing, Writer, Pipeline); the correspondence run; the PrintOK facts about CPython's \\w / isspace / lower, each "
               "checked over all 1,114,112 code points on every run. SideOK (Lemmas/ParsedWritable.lean) is the content part of the "
               "property's 'well-formed document'; the oracle's wf5 evaluates the same conditions on the real code, slightly more "
-              "liberally: no failed block; entry types are \\w words fixed by lower(); entry/field/@string keys contain no "
-              "delimiter, newline, '@' or backslash (wf5 allows a backslash or a non-block-start '@' inside a key); an entry field "
+              "liberally: no failed block; entry types are \\w words fixed by lower(); entry/field/@string keys are KeyOK "
+              "(Lemmas/KeyOK.lean; wf5's _key_ok is the same condition): the tokens of the key are text / newline tokens only, i.e. "
+              "every delimiter { } \" , = in the key is escaped by a preceding backslash and there is no block-start sequence "
+              "@\\w*[ \\t]*{, and the key does not end in a backslash - backslashes, escaped delimiters, any other '@' and newlines "
+              "are fine (KeyText = no newline = one text token, and SimpleText are the special cases keyOK_of_keyText', "
+              "keyText_of_simpleText); an entry field "
               "value v is ValueOK: the tokens of the ENCLOSED text {v} form a Value of the grammar (bare text, brace groups, quoted "
               "pieces; no top-level comma / equals sign, no block start) and v does not end in a backslash - the content itself "
               "need not be balanced; an @string value v is StrValOK: the tokens of {v} are brace-balanced, no trailing backslash; "
               "preambles and explicit comments (written without added braces) are TextOK: their own tokens are brace-balanced, no "
               "trailing backslash; free-text comments contain no block-start sequence @\\w*[ \\t]*{ (noStart; any other '@', "
               "e.g. a mail address, is fine - wf5 additionally excludes a trailing backslash there, the theorems do not need "
-              "that). Documents outside SideOK but inside wf5 are exercised by the correspondence run and the oracle only.")
+              "that). Documents outside SideOK but inside wf5 are exercised by the correspondence run and the oracle only. "
+              "Doc.WF5 (Props/C05.lean), the hypothesis of the grammar-level theorem, on the source derivation: Doc.WF of C02, "
+              "field keys distinct within an entry, entry keys and @string keys pairwise distinct, entry types \\w words after "
+              "lower(), no stripped key / explicit comment ending in a backslash, no value CONTENT (stripped, one enclosing layer "
+              "removed) ending in a backslash, @string values are Values of the grammar (not just brace-balanced). The last two "
+              "conditions correct the WF5 of DESIGN, which is false without them in model and real code alike (both in the corpus): "
+              "'@string{s = {a}, {b}}' + '@a{k, t = s}' - a Bal that is no Value, the entry is written as 't = {a}, {b}' and comes back "
+              "as a ParsingFailedBlock; '@a{k, t = \"a\"b\\\"}' - the stripped source value ends in a quote, its content a\"b\\ in a "
+              "backslash, the writer's closing brace is escaped and the block does not parse back. Outside WF5 but round-tripping "
+              "correctly in the real code (corpus; not covered by the theorems): a value like '{a}b\\}' whose content ends in a "
+              "backslash. LowerOK: three facts about str.lower, checked over all code points; the model lower-cases character by "
+              "character.")
 TECHNIQUE = "Lean 4 proof + differential correspondence of the whole default pipeline"
-ASSUMPTIONS = ["PrintOK (per-character facts about \\w, str.isspace, str.lower; checked over all code points this run)",
+ASSUMPTIONS = ["PrintOK (per-character facts about \\w, str.isspace, str.lower; checked over all code points this run); "
+               "LowerOK (lower() is idempotent per character, keeps \\w characters free of white space, fixes blank and tab; same "
+               "check) for content_preserved_grammar only",
                "FormatOK: indent consists of blanks/tabs, block_separator of blanks/tabs/newlines",
                "Writable L resp. SideOK for the parsed library (see LEVEL_NOTE); EncVal / EncBal / CleanVal are the lexical "
-               "conditions on field values / @string values / preambles and comments"]
-PARTIAL = ["content_preserved_grammar_full (Props/C05.lean, kept as a def, not proved): the round-trip statement for every "
-           "derivation of the dialect grammar satisfying WF5 (distinct keys, nothing ending in a backslash, \\w types). Proved is "
-           "the class whose PARSED library passes SideOK (content_preserved, parsed_writable). Still outside: (a) a backslash, an "
-           "escaped delimiter, a newline or a non-block-start '@' inside an entry / field / @string key; "
-           "(b) the step from the grammar derivation to SideOK of the parsed library (it needs the re-lexing of "
-           "stripped sub-texts of a canonical token list: that the content of a grammar Value, once one enclosing layer is "
-           "stripped and braces are put around it, lexes to a Value again) - stated on the parsed library instead."]
+               "conditions on field values / @string values / preambles and comments, KeyOK the one on keys",
+               "content_preserved_grammar: Doc.WF5 d, Canon (tokens of d are the lexer's), s spelled by d (see LEVEL_NOTE)"]
+PARTIAL = []
 EXHAUSTIVE = {"quick": False, "thorough": False}
 
 INDENTS = ["", " ", "\t", "    "]
@@ -110,6 +132,24 @@ def corpus():
           '@string{jj = {a}{b}}')
     out.append(dict(base, t=cc))
     out.append({"t": cc, "indent": "  ", "col": "auto", "sep": "\n \n", "tc": True})
+    # keys with escaped delimiters, a backslash in the middle, a non-block-start '@' (KeyText)
+    out.append(dict(base, t="@a{k\\,1@x, a\\=b@c = {v}, d\\{e\\} = 1, f\\g = {h}}\n@string{s\\\"t = {w}}"))
+    out.append({"t": "@a{k\\,1@x, a\\=b@c = {v}, d\\{e\\} = 1}", "indent": "", "col": "auto", "sep": "", "tc": True})
+    # the non-vacuity document of content_preserved_grammar (Lemmas/GrammarExample.lean: gText / gDoc)
+    out.append(dict(base, t='@string{s = {x}}\n@a{k, t = {A} # {B}, u = "q", w = s}'))
+    # counterexample to the grammar-level statement as DESIGN had it: an @string value that is a Bal but no Value
+    # (comma at depth 0); through the reference the entry is written as text that does not parse back.  wf5 rejects it
+    # (the parsed field value `a}, {b` is no ValueOK), the theorem's Doc.OK5 asks @string values to be Values.
+    out.append(dict(base, t="@string{s = {a}, {b}}\n@a{k, t = s}"))
+    out.append(dict(base, t="@string{s = {a} = {b}}\n@string{r = x, y}\n@a{k, t = {v}}"))
+    # second counterexample to DESIGN's WF5: the stripped source value ends in a quote, its content in a backslash
+    out.append(dict(base, t='@a{k, t = "a"b\\"}'))
+    out.append(dict(base, t='@string{s = "a"b\\"}\n@a{k, t = {v}}'))
+    # newline inside keys (KeyOK); a value that starts with '{' and ends in an escaped '\}' (content ends in a
+    # backslash: outside WF5, round-trips all the same)
+    out.append(dict(base, t="@a{k\nk, t\nu = {a}, w\\,\nx = 1}\n@string{s\nt = {w}}"))
+    out.append({"t": "@a{k\nk, t\nu = {a}, long\n\nkey = {b}}", "indent": "  ", "col": "auto", "sep": "\n \n", "tc": True})
+    out.append(dict(base, t="@a{j, t = {a}b\\}}"))
     # free-text comments with '@' that is not a block start (noStart)
     out.append(dict(base, t="% maintained by a@b.org, see @ home @x y\n@a{k, t = {v}}\nmail c@d.org @\n@string{s = {w}}\ntail @"))
     return out
@@ -188,6 +228,14 @@ def _balanced(t):
     return d == 0
 
 
+def _key_ok(k):
+    """KeyOK (Lemmas/KeyOK.lean): every delimiter in the key other than a newline is escaped by a preceding backslash,
+    no block-start sequence, no trailing backslash"""
+    if k.endswith("\\") or _AT.search(k):
+        return False
+    return all(ch not in '{}",=' or (i > 0 and k[i - 1] == "\\") for i, ch in enumerate(k))
+
+
 def _value_ok(t):
     """`t` is a Value of the dialect grammar (DESIGN section 5): bare text, brace groups `{Bal}` and quoted pieces
     `"QBody"` (braces balance inside quotes, a quote inside braces is ordinary); no top-level ',' or '='"""
@@ -236,14 +284,16 @@ def wf5(case, lib1):
             values = [f.value for f in b.fields if isinstance(f.value, str)]
             texts = [b.key] + [f.key for f in b.fields] + values
             bal = [b.key] + [f.key for f in b.fields]
-            if any(c in b.key or any(c in f.key for f in b.fields) for c in '{}",=@\n'):
+            if not all(_key_ok(k) for k in bal):
                 return False
+            bal = []
         elif isinstance(b, M.String):
             texts = [b.key, b.value]
             bal = [b.key]
             svalues = [b.value]
-            if any(c in b.key for c in '{}",=@\n'):
+            if not _key_ok(b.key):
                 return False
+            bal = []
         elif isinstance(b, M.Preamble):
             texts = bal = [b.value]
         elif isinstance(b, M.ExplicitComment):
@@ -304,17 +354,30 @@ def known_match(finding, case, failure):
 
 
 def extra_obligations(tier):
-    """PrintOK (Lemmas/PrintParseDefs.lean): every field is a per-character statement; each is evaluated on the
-    running CPython for all 1,114,112 code points (the quantified ones) / the named characters."""
+    """PrintOK (Lemmas/PrintParseDefs.lean) and LowerOK (Lemmas/GrammarType.lean, used by the grammar-level theorem only):
+    every field is a per-character statement; each is evaluated on the running CPython for all 1,114,112 code points
+    (the quantified ones) / the named characters."""
     import re as _re
     w = _re.compile(r"\w")
-    blank_word, space_bad, n_blank = [], [], 0
+    blank_word, space_bad, n_blank, n_space = [], [], 0, 0
+    low_idem, low_space, n_word = [], [], 0
     for cp in range(0x110000):
         c = chr(cp)
         if c in " \t":                       # isBlank
             n_blank += 1
             if w.match(c):
                 blank_word.append(cp)
+        if c.isspace():                      # PrintOK.space
+            n_space += 1
+            if not (c == "\n" or (c not in '{}",=\n@\\' and not w.match(c))):
+                space_bad.append(cp)
+        lc = c.lower()                       # LowerOK
+        if any(d.lower() != d for d in lc):
+            low_idem.append(cp)
+        if w.match(c):
+            n_word += 1
+            if any(d.isspace() for d in lc):
+                low_space.append(cp)
     kw = "stringpeamblco"
     res = [
         ("PrintOK.word.lbrace: \\w does not match '{'", not w.match("{"), ""),
@@ -323,13 +386,22 @@ def extra_obligations(tier):
         ("PrintOK.atWord: \\w does not match '@'", not w.match("@"), ""),
         ("PrintOK.rbWord: \\w does not match '}'", not w.match("}"), ""),
         ("PrintOK.nlWord: \\w does not match a newline", not w.match("\n"), ""),
+        ("PrintOK.cmWord/eqWord: \\w matches neither ',' nor '='", not w.match(",") and not w.match("="), ""),
+        ("PrintOK.qWord: \\w does not match '\"'", not w.match('"'), ""),
+        ("PrintOK.space: every isspace() character (%d of all 1114112 code points) is a newline, or is none of "
+         "{ } \" , = @ backslash and does not match \\w" % n_space, not space_bad, "offending: %r" % space_bad[:5]),
+        ("LowerOK.idem: for all 1114112 code points c, every character d of c.lower() has d.lower() == d",
+         not low_idem, "offending: %r" % low_idem[:5]),
+        ("LowerOK.wordNoSpace: for every code point matching \\w (%d), c.lower() contains no isspace() character" % n_word,
+         not low_space, "offending: %r" % low_space[:5]),
+        ("LowerOK.blank: ' '.lower() == ' ' and TAB.lower() == TAB", " ".lower() == " " and "\t".lower() == "\t", ""),
         ("PrintOK.spSpace/tabSpace/nlSpace: ' ', TAB, NL are isspace()", all(c.isspace() for c in " \t\n"), ""),
         ("PrintOK.lbSpace/rbSpace: '{' and '}' are not isspace()", not "{".isspace() and not "}".isspace(), ""),
         ("PrintOK.atLower: '@'.lower() == '@'", "@".lower() == "@", ""),
         ("PrintOK.kw: the letters of string/preamble/comment match \\w and are their own lower()",
          all(w.match(c) and c.lower() == c for c in kw), "letters: %s" % kw),
     ]
-    # (the model's ASCII table satisfies the same facts by a Lean proof: printOK_ascii)
+    # (the model's ASCII table satisfies the same facts by a Lean proof: printOK_ascii, lowerOK_ascii)
     return res
 
 
